@@ -13,6 +13,7 @@ Contract ==
    /\ C.outcome \in (IF C.probe = "value" THEN Allowed(C.T, C.c)
                       ELSE IF C.probe = "after-refused-first" THEN {"refused", "own-schema"}    \* nothing was written yet: refused as well, or written under their own schema
                       ELSE IF C.probe = "grouped" THEN {"refused", "same"}                \* a grouped record: refused, or all its fields with their values
+                      ELSE IF C.probe = "fieldless" THEN {"same"}                         \* a type without own fields: every record (its reserved fields) comes back
                       ELSE IF C.probe = "stdout" THEN {"same"}                            \* the container written to standard output: one header, every record
                       ELSE {"refused"})                                                  \* never a different value
    /\ (C.outcome = "refused" => ~C.probe_in_file)                                       \* a refused record is not in the file
